@@ -185,7 +185,7 @@ pub fn gen_plan(property: &str, seed: u64, run: u64, thorough: bool) -> Plan {
         });
     };
     if c11 {
-        let nchanges = rng.range(1, if thorough { 12 } else { 8 });
+        let nchanges = rng.range(1, if thorough { 20 } else { 8 });
         if rng.chance(1, 2) {
             ops.push(HostOp::Compare {
                 queries: draw_queries(&mut rng, &cur, 2, 10, &mut pool),
@@ -215,7 +215,7 @@ pub fn gen_plan(property: &str, seed: u64, run: u64, thorough: bool) -> Plan {
     } else {
         let rounds = rng.range(1, if thorough { 6 } else { 4 });
         for _ in 0..rounds {
-            for _ in 0..rng.range(1, 4) {
+            for _ in 0..rng.range(1, if thorough { 6 } else { 4 }) {
                 spawn(&mut rng, &cur, &mut ops, &mut pool, 5);
                 if rng.chance(1, 3) {
                     ops.push(HostOp::Yield);
